@@ -111,6 +111,36 @@ CHECKS = {
         technique='TLA+ reader spec (reader(chains=S) = reader(Filter(s,S))) model-checked by TLC; TLC-generated sequences x chain subsets replayed into the reader; -c runs vs edited-file runs trace-validated by TLC (Part, TextSame)',
         text='TLC checks for all record sequences and chain subsets that selecting chains equals filtering the records, every case is replayed through the real reader, and full runs with -c (blank ids, hetero groups with own id, chains without TER) are compared by TLC with runs on the edited file, including the .pka text.',
         design="5/C13"),
+    "C08": dict(
+        engine="Conformations",
+        technique='TLA+ conformation spec (names/order, declared completion vs reference-atom top-up, mean over containing) model-checked by TLC; TLC-generated multi-conformation inputs concretised and run; run records trace-validated by TLC (Trace_Conf)',
+        text="TLC checks on all inputs of <= 4 atoms over 2 models x alt-locs x positions (incl. insertion-coded twins and alt-loc mutants) that the code-shaped top-up is a correct completion and never merges residue types (two self-tests must be refuted); emitted inputs, the repository's multi-conformation files and constructed alt-loc / MODEL / mutant cases are run and TLC checks names and order, completion, AVR = mean over the containing conformations for pKa, desolvation and every determinant, and that every reported group is in the average once.",
+        design="5/C08"),
+    "C12": dict(
+        engine="Truncation",
+        technique='TLA+ truncation spec (templates x removed-atom subsets) model-checked by TLC; TLC-generated subsets replayed as deletions in real five-residue windows; truncated-run records trace-validated by TLC (DeclCensus)',
+        text='TLC enumerates for 11 residue templates all subsets of removed atoms (templates <= 9/12 atoms; singles and doubles beyond), each is concretised by deleting those atoms from a real residue in its real neighbourhood and run.single must complete with exactly the declared census of the truncated input; random atom / side-chain / backbone / residue / ligand deletions in full structures; empty or unknown-type inputs must raise ValueError.',
+        design="5/C12"),
+    "C14": dict(
+        engine="TitrateOnly",
+        technique='TLA+ titrate-only spec (parser grammar, filter laws) model-checked by TLC; TLC-generated entries replayed into parse_res_string; -i runs trace-validated by TLC (DeclCensus with ListedRes, EnvKept, SameAll)',
+        text='TLC checks the parser mechanism against the grammar for every entry shape and the filter laws; every entry string goes through the real parser; for fragments with twins all (thorough) or a covering selection of residue subsets are run with -i and TLC checks the reported census matched on chain, number and insertion code, that listed groups keep desolvation/buried/backbone terms and all groups stay present, all-listed = no option, unknown entries ignored.',
+        design="5/C14"),
+    "C15": dict(
+        engine="Coupling",
+        technique='TLA+ swap spec (transfer_determinant, swap . swap = identity) model-checked by TLC; TLC-generated configurations replayed into NCCG.swap_interactions; runs with the analysis on/off trace-validated by TLC (SameScores, symmetry, star iff partner)',
+        text='TLC checks for all configurations of three groups (shared labels, several determinants per partner, coulomb and side-chain lists) that two swaps restore every multiset and sum; each configuration is built from real Group/Determinant objects and the real swap stepped twice (lists compared with the model after each call); corpus runs incl. constructed strongly coupled pairs are run with the coupling analysis on and off and TLC checks equal values, symmetric marks, and star iff partner per conformation and in the .pka table.',
+        design="5/C15"),
+    "C16": dict(
+        engine="SignTable",
+        technique='TLA+ Coulomb sign table (mechanism vs statement) model-checked by TLC; TLC-generated cases replayed into add_coulomb_determinants / set_ion_determinants / set_determinants with stubbed magnitudes; group records of corpus runs trace-validated by TLC (C16 invariants)',
+        text="TLC checks that the code's assignment rule satisfies the statement's sign rule for all charge / model-pKa combinations and ions; every case and every pair of titratable types of the parameter file goes through the real functions with a stubbed interaction magnitude; on corpus runs (test structures, every ion type next to acids and bases, like-charge constructs) TLC checks desolvation, backbone and Coulomb signs, Coulomb and side-chain bounds, buried fraction and equal-and-opposite acid-base determinants for every group.",
+        design="5/C16"),
+    "C17": dict(
+        engine="Protonate",
+        technique='TLA+ electron-counting / builder-cascade spec model-checked by TLC; TLC-generated environments replayed into Protonate.protonate_atom on real Atom objects; hydrogens of replays and corpus runs trace-validated by TLC (count, bond length, separation, single parent, equivariance)',
+        text="TLC checks for all 270 environments that the builder cascade adds the declared number of hydrogens and that the statement's complements follow; each environment x planar/tetrahedral/axis-aligned neighbour arrangement x orientations is built from real atoms and protonated, and TLC checks count, X-H length within coordinate rounding, H-H >= 0.5 A and a single heavy neighbour; on corpus runs TLC checks the same clauses for every hydrogen, the complements of complete residues with chain neighbours, and equivariance under lattice rotations.",
+        design="5/C17"),
 }
 
 NOT_APPLICABLE = {}
